@@ -170,6 +170,9 @@ Proof.
   rewrite (IH (n / 10) (_ :: acc)), (IH (n / 10) [_]). rewrite <- app_assoc. reflexivity.
 Qed.
 
+Lemma digit_ok : forall r, r < 10 -> is_digit (48 + r) = true.
+Proof. intros r H. unfold is_digit. lia. Qed.
+
 Lemma to_dec_fuel_S : forall f n acc,
   to_dec_fuel (S f) n acc = if n <? 10 then (48 + n mod 10) :: acc else to_dec_fuel f (n / 10) ((48 + n mod 10) :: acc).
 Proof. reflexivity. Qed.
@@ -181,7 +184,7 @@ Proof.
   - cbn in Hn. assert (n = 0) by lia. subst. cbn. repeat split; [repeat constructor|discriminate].
   - rewrite to_dec_fuel_S. destruct (N.ltb_spec n 10) as [Hlt|Hge].
     + unfold val. cbn [fold_left]. rewrite (N.mod_small n 10) by exact Hlt. repeat split; [lia| |discriminate].
-      constructor; [|constructor]. unfold is_digit. lia.
+      constructor; [|constructor]. apply digit_ok. exact Hlt.
     + rewrite to_dec_fuel_acc.
       assert (Hd : n / 10 < 2 ^ N.of_nat f).
       { apply N.div_lt_upper_bound; [lia|]. rewrite Nat2N.inj_succ, N.pow_succ_r' in Hn. lia. }
@@ -192,7 +195,7 @@ Proof.
         replace (48 + n mod 10 - 48) with (n mod 10) by (rewrite N.add_comm, N.add_sub; reflexivity).
         rewrite (N.mul_comm (n / 10) 10). symmetry. exact Hdm.
       * apply Forall_app. split; [exact Hdig|]. constructor; [|constructor].
-        assert (n mod 10 < 10) by (apply N.mod_lt; lia). unfold is_digit. lia.
+        apply digit_ok. apply N.mod_lt. lia.
       * intros E. apply app_eq_nil in E as [_ E]. discriminate.
 Qed.
 
